@@ -18,4 +18,75 @@ CfgsT   == {Cfg(FALSE), Cfg(TRUE)}
 BasesT  == {<<>>}
 UOpsT   == {}
 NoExtra == [base |-> FALSE]
+BaseExtra == [base |-> TRUE]
+
+\* ---------------- pool A: competition / backtracking / abandoned captures
+PatsA == {"/u/{id}", "/u/{id:\\d+}", "/u/{id:digit}", "/u/5", "/u/{id}/x", "/u/{id}/{p:\\d+}",
+          "/u/{id}/{act}/log", "/u/{-id}/z", "/u/{uid}/x", "/u/{u}/y", "/p/{id:\\d+}.h", "/p-{a}-{b:any}.h"}
+HOpsA == {H(p, ms) : p \in PatsA, ms \in {G, P}}
+ROpsA == {Rm(p, ms) : p \in PatsA, ms \in {<<>>, G}}
+COpsA == {Cl(""), Cl("/u/"), Cl("/p"), Cl("/u/{id}/")}
+UOpsA == {}
+CfgsA == {Cfg(FALSE)}
+BasesA == {<<>>,
+           <<H("/u/{id}/x", G), H("/u/{id}/{p:\\d+}", G), H("/u/{id}/{act}/log", G)>>,
+           <<H("/u/{uid}/x", G), H("/u/5", G), H("/u/{id:digit}", G), H("/u/{id:\\d+}", GP), H("/p/{id:\\d+}.h", G)>>}
+ProbesA == <<W("/u/{id}", [id |-> "7q"]), W("/u/{id:\\d+}", [id |-> "77"]), W("/u/{id:digit}", [id |-> "78"]), W("/u/5", <<>>),
+             W("/u/{id}/x", [id |-> "7q"]), W("/u/{id}/{p:\\d+}", [id |-> "7q", p |-> "88"]),
+             W("/u/{id}/{act}/log", [id |-> "7q", act |-> "8w"]), W("/u/{-id}/z", [id |-> "7q"]),
+             W("/u/{uid}/x", [uid |-> "7q"]), W("/u/{u}/y", [u |-> "7q"]), W("/p/{id:\\d+}.h", [id |-> "77"]),
+             W("/p-{a}-{b:any}.h", [a |-> "7q", b |-> "8w"]),
+             A("/u/5/7/log"), A("/u/7/log/log"), A("/u/7/8/log/log"), A("/u/7/x/x"), A("/u//x"), A("/u/"), A("/u/5/"), A("/u/55"),
+             A("/u/7a"), A("/u/7/x8"), A("/u/7/8"), A("/p/7xh"), A("/p/7.h.h"), A("/p/a.h"), A("/p--8.h"), A("/p-7-8.h-9.h"), A("/p-7-.h"),
+             A("/u/7q/z/z"), A("/"), A(""), A("*")>>
+MethodsA == <<"GET", "HEAD", "POST", "OPTIONS", "TRACE", "BOGUS", "">>
+
+\* ---------------- pool B: >= 5 literal siblings (first-byte index), top-level literals without '/'
+LitB  == {"/s/a", "/s/b", "/s/c", "/s/d", "/s/e", "/s/f", "/s/g"}
+TopB  == {"a", "b", "c", "d", "e", "f"}
+PatsB == LitB \cup TopB \cup {"/s/{id}", "/s/{n:\\d+}", "{top}"}
+HOpsB == {H(p, ms) : p \in PatsB, ms \in {G, P}}
+ROpsB == {Rm(p, ms) : p \in PatsB, ms \in {<<>>, G}}
+COpsB == {Cl(""), Cl("/s/"), Cl("/s/a"), Cl("a")}
+UOpsB == {}
+CfgsB == {Cfg(FALSE)}
+BaseB1 == <<H("/s/a", G), H("/s/b", G), H("/s/c", G), H("/s/d", G), H("/s/e", G), H("/s/f", G), H("/s/g", G), H("/s/{id}", G), H("/s/{n:\\d+}", G)>>
+BaseB2 == <<H("a", G), H("b", G), H("c", G), H("d", G), H("e", G), H("f", G), H("{top}", G)>>
+BaseB3 == <<H("/s/{id}", G), H("/s/a", G), H("/s/b", G), H("/s/c", G), H("/s/d", G), H("/s/e", G), H("/s/f", G)>>
+BasesB == {BaseB1, BaseB2, BaseB3, BaseB1 \o BaseB2}
+ProbesB == <<W("/s/a", <<>>), W("/s/b", <<>>), W("/s/c", <<>>), W("/s/d", <<>>), W("/s/e", <<>>), W("/s/f", <<>>), W("/s/g", <<>>),
+             W("/s/{id}", [id |-> "7q"]), W("/s/{n:\\d+}", [n |-> "77"]), W("{top}", [top |-> "7q"]),
+             W("a", <<>>), W("b", <<>>), W("c", <<>>), W("d", <<>>), W("e", <<>>), W("f", <<>>),
+             A("/s/zz"), A("/s/ab"), A("/s/"), A("/s/a/"), A("/s/h"), A("fz"), A("g"), A("/"), A(""), A("*")>>
+MethodsB == <<"GET", "HEAD", "POST", "OPTIONS", "BOGUS">>
+
+\* ---------------- pool C: splits around existing nodes, Allow sets, TRACE option
+PatsC == {"/posts/author", "/posts/abc", "/posts/{id}/author", "/posts/", "/", "/posts/{id}"}
+Dl == <<"DELETE">>
+HOpsC == {H(p, ms) : p \in PatsC, ms \in {G, P, Dl}}
+ROpsC == {Rm(p, ms) : p \in PatsC, ms \in {<<>>, G, P, <<"DELETE", "PUT">>}}
+COpsC == {Cl(""), Cl("/posts/"), Cl("/posts/a")}
+UOpsC == {}
+CfgsC == {Cfg(FALSE), Cfg(TRUE)}
+BasesC == {<<>>}
+ProbesC == <<W("/posts/author", <<>>), W("/posts/abc", <<>>), W("/posts/{id}/author", [id |-> "7q"]), W("/posts/", <<>>), W("/", <<>>),
+             W("/posts/{id}", [id |-> "7q"]), A("/posts/autho"), A("/posts/authors"), A("/posts"), A("/posts/author/author"),
+             A("/posts/a"), A(""), A("*")>>
+MethodsC == <<"GET", "HEAD", "POST", "DELETE", "PUT", "OPTIONS", "TRACE", "BOGUS">>
+
+\* ---------------- pool X: Handle / Remove with every kind of method list (C17, C08, C03)
+PatsX == {"/u/{id}/ab", "/u/{id}/ac", "/u/{id}", "/u/{name}", "/x", "/u/{id:\\d+}"}
+BadPatsX == {"/u/{}", "/u/{a}{b}", "/u/{a}/{a}", "", "/u/{:\\d+}"}
+ListsX == {G, P, <<"GET", "BOGUS">>, <<"BOGUS", "GET">>, <<"HEAD">>, <<"POST", "OPTIONS">>, <<"TRACE">>, <<"GET", "GET">>, <<"GET", "POST">>, <<>>}
+HOpsX == {H(p, ms) : p \in PatsX, ms \in ListsX} \cup {H(p, G) : p \in BadPatsX}
+ROpsX == {Rm(p, ms) : p \in PatsX \ {"/u/{name}"}, ms \in {<<>>, G, <<"HEAD">>, <<"OPTIONS">>, <<"">>, <<"BOGUS">>, <<"TRACE">>, <<"POST", "GET">>}}
+COpsX == {Cl(""), Cl("/u/{id}/a")}
+UOpsX == {}
+CfgsX == {Cfg(FALSE), Cfg(TRUE)}
+BasesX == {<<>>, <<H("/u/{id}/ab", G)>>, <<H("/u/{id}", GP), H("/x", G)>>}
+ProbesX == <<W("/u/{id}/ab", [id |-> "7q"]), W("/u/{id}/ac", [id |-> "7q"]), W("/u/{id}", [id |-> "7q"]), W("/u/{name}", [name |-> "7q"]),
+             W("/x", <<>>), W("/u/{id:\\d+}", [id |-> "77"]),
+             A("/u/x/ac/ab"), A("/u/7q/a"), A("/u/7/ab/ab"), A("/u/"), A("/"), A(""), A("*")>>
+MethodsX == <<"GET", "HEAD", "POST", "OPTIONS", "TRACE", "BOGUS", "">>
+
 =============================================================================
